@@ -155,6 +155,11 @@ def run(tier, rep, ev):
                 add(sizes=sizes, mode="thread", schedule=s, failsink=[f], sink="factory", seed=f)
             for mode, sink in (("thread", "path"), ("process", "path"), ("seq", "factory"), ("seq", "path")):
                 add(sizes=sizes, mode=mode, sink=sink, failsink=[f], seed=f, schedule=[])
+        # the process-parallel option delivering to a WriterFactory; the archive opened by a relative name, the caller changing directory
+        for k in range(2 if tier == "quick" else 10):
+            add(sizes=sizes, mode="process", sink="factory", schedule=[], seed=k, coder=["lzma2", "copy"][k % 2])
+        for mode, sink in (("thread", "path"), ("thread", "factory"), ("process", "path")):
+            add(sizes=sizes, mode=mode, sink=sink, schedule=[], seed=2, relname=True)
         # members of different folders under one directory without an entry of its own: the workers meet while creating it
         for k in range(2 if tier == "quick" else 12):
             add(sizes=sizes, mode="thread", sink="path", schedule=[], seed=k, shared_parent=True, mkdir_rendezvous=True, coder=["lzma2", "copy"][k % 2])
